@@ -4,7 +4,7 @@
     [digits_ub] any admissible over-estimate of the digit count (Repr::digits_ub). *)
 From Dashu Require Import Base.Prelude Base.Words.
 From Dashu Require Import Int.ReprOrdModel Int.ReprOrdProofs.
-From Dashu Require Import Float.FloatOrdModel Float.FloatOrdProofs.
+From Dashu Require Import Float.FloatOrdModel Float.FloatOrdProofs Float.FloatOrdTotal.
 From Dashu Require Import Ratio.RatioOrdModel Ratio.RatioOrdProofs.
 Open Scope Z_scope.
 
@@ -153,12 +153,32 @@ Theorem C05_float_order_trans : forall B, 2 <= B -> forall a b c x,
 Proof. exact fin_cmp_trans. Qed.
 Print Assumptions C05_float_order_trans.
 
-Theorem C05_float_normalize_partial : forall B r, 2 <= B -> (B = 2 \/ is_pow2 B = false) ->
+(** Repr::normalize, all three branches (base 2, other powers of two, generic), for every base *)
+Theorem C05_float_normalize : forall B r, 2 <= B ->
   exists r', normalize B r = Ok r' /\ normalized B r' /\
     (fsig r = 0 -> r' = FR 0 0) /\
     (fsig r <> 0 -> fexp r <= fexp r' /\ fsig r = fsig r' * B ^ (fexp r' - fexp r)).
-Proof. exact normalize_ok_partial. Qed.
-Print Assumptions C05_float_normalize_partial.
+Proof. exact normalize_ok. Qed.
+Print Assumptions C05_float_normalize.
+
+(** the order the comparison is proved equal to is a total order on finite values and the infinities *)
+Theorem C05_float_order_total_refl : forall B a, fcmp_spec B a a = Eq.
+Proof. exact fcmp_spec_refl. Qed.
+Print Assumptions C05_float_order_total_refl.
+
+Theorem C05_float_order_total_antisym : forall B a b, fcmp_spec B b a = CompOpp (fcmp_spec B a b).
+Proof. exact fcmp_spec_antisym. Qed.
+Print Assumptions C05_float_order_total_antisym.
+
+Theorem C05_float_order_total_trans : forall B, 2 <= B -> forall a b c x,
+  fcmp_spec B a b = x -> fcmp_spec B b c = x -> fcmp_spec B a c = x.
+Proof. exact fcmp_spec_trans. Qed.
+Print Assumptions C05_float_order_total_trans.
+
+Theorem C05_float_order_is_value_order : forall B l r m, 2 <= B -> m <= fexp l -> m <= fexp r ->
+  fin_cmp B l r = (fsig l * B ^ (fexp l - m) ?= fsig r * B ^ (fexp r - m)).
+Proof. exact fin_cmp_is_value_order. Qed.
+Print Assumptions C05_float_order_is_value_order.
 
 (** the comparison of the pinned tree agreed with the order only without excess digits (F02, repaired) *)
 Theorem C05_float_cmp_pinned_conditional : forall B, 2 <= B -> forall digits_ub,
